@@ -150,7 +150,9 @@ class C11(Spec):
             "patterns folded into one CRC per block (quick 20, thorough 64 in the compared script + 2048 more in parallel shards; "
             "VERIF_C11_SWEEP=full sweeps all 2^32); int64 boundary/lane/random; "
             "bytes/strings with lengths across 127/128, 16383/16384, 65535/65536/65537, 70000, 2^20 (thorough also 2^21) placed "
-            "behind and in front of other values, non-UTF-8 content; every case also runs the alias phase; conc lines: 8 goroutines with private "
+            "behind and in front of other values, non-UTF-8 content; every case also runs the alias phase; hash-collision sets (distinct equal-length strings of length 3..16, 17, 24, 33, 64 "
+            "colliding under FNV-1a/FNV-1/CRC-32/Adler-32/djb2/sdbm/31h+c and their 16-bit truncations, brute-forced at start-up) "
+            "written and read back-to-back and interleaved as strings and byte slices; conc lines: 8 goroutines with private "
             "streams repeat their own sequences 10000-30000 times concurrently and must reproduce the sequential bytes and values "
             "(quick 16, thorough 120 lines); thorough only, when >= 3 GiB are available: records of 2^28-1, 2^28, 2^28+1 bytes (5-byte "
             "prefix boundary; the driver does not materialise them: expected prefix = spec leb128 of the length, lengths, and a "
